@@ -10,6 +10,7 @@ mod c06;
 mod c07;
 mod c08;
 mod c09;
+mod c10;
 mod c11;
 mod ggen;
 mod hostile;
@@ -53,6 +54,7 @@ fn main() {
 			Some("C04") => c04::worker(&args[3..]),
 			Some("C05") => c05::worker(&args[3..]),
 			Some("C09") => c09::worker(&args[3..]),
+			Some("C10") => vmiri::cli::cli_main(&args[3..]),
 			Some("C17") => c17::worker(&args[3..]),
 			Some("C19") => c19::worker_main(&args[3..]),
 			other => {
@@ -102,6 +104,7 @@ fn main() {
 			"C07" => c07::replay(&v),
 			"C08" => c08::replay(&v),
 			"C09" => c09::replay(&v),
+			"C10" => c10::replay(&v),
 			"C11" => c11::replay(&v),
 			"C13" => c13::replay(&v),
 			"C14" => c14::replay(&v),
@@ -128,6 +131,7 @@ fn main() {
 		"C07" => c07::run(&mut rep),
 		"C08" => c08::run(&mut rep),
 		"C09" => c09::run(&mut rep),
+		"C10" => c10::run(&mut rep),
 		"C11" => c11::run(&mut rep),
 		"C13" => c13::run(&mut rep),
 		"C14" => c14::run(&mut rep),
